@@ -71,8 +71,23 @@ def make_cuts(lim=None):
     return [floatcut.cut(rel, q, mod, rules=rules, limits=LIMITS) for rel, q, mod, rules in CUT_SPECS]
 
 
+PRICES = {}
+STUB_PRICES = [False]
+_real_price_per_hour = icc.PoolConfig.price_per_hour
+
+
+def _price_per_hour(self, resource_rates, product_versions, location, cores_mcpu, memory_bytes, storage_gib):
+    """Over-approximation used by the selection obligations: the price of a pool is an ARBITRARY symbolic number
+    (a harness input per pool) instead of the real rate arithmetic; every real price table is a special case.  The real
+    price_per_hour runs in the known-finding obligation (selectK), in replay, and is C13's subject."""
+    if STUB_PRICES[0]:
+        return PRICES[self.name]
+    return _real_price_per_hour(self, resource_rates, product_versions, location, cores_mcpu, memory_bytes, storage_gib)
+
+
 def install_cuts(quick=False):
     global CUTS
+    icc.PoolConfig.price_per_hour = _price_per_hour
     CUTS = make_cuts(limits(quick))
     for c in CUTS:
         INSTALLED.extend(floatcut.install(c))
@@ -228,10 +243,16 @@ def known_nonpow2(cfg, cloud, c, m, st, preemptible, label, wt):
     return hit
 
 
-def select_ok(cloud, variant, c, m, st, preemptible, label_i, wt_i, slacks=(0, 0, 0), exclude_known=False):
-    """Family B (pools): select_inst_coll over a multi-pool configuration; wt_i = 0 means "no worker type"."""
+def select_ok(cloud, variant, c, m, st, preemptible, label_i, wt_i, slacks=(0, 0, 0), exclude_known=False, prices=None):
+    """Family B (pools): select_inst_coll over a multi-pool configuration; wt_i = 0 means "no worker type".
+    prices: symbolic price per pool (in configuration order) => the price stub is used; None => real prices."""
     set_slack(cloud, slacks)
     cfg = config(cloud, variant)
+    STUB_PRICES[0] = prices is not None
+    if prices is not None:
+        PRICES.clear()
+        for p, pr in zip(cfg.name_pool_config.values(), prices):
+            PRICES[p.name] = pr
     label = LABELS[label_i]
     wt = None if wt_i == 0 else types(cloud)[wt_i - 1]
     if exclude_known and known_nonpow2(cfg, cloud, c, m, st, preemptible, label, wt):
